@@ -1033,6 +1033,12 @@ class QuantityMeta(ClassWithDefinitionMeta):
         # otherwise that would be put into the map of the base class
         cls._unit_map = {}
         if ref_unit_symbol:
+            # check the symbol and register the class first, so that a
+            # rejected class definition does not leave a registered unit
+            if ref_unit_symbol in _SYMBOL_UNIT_MAP:
+                raise ValueError(f"Unit with symbol '{ref_unit_symbol}' "
+                                 "already registered.")
+            cls._reg_id = QuantityMeta._registry.register_item(cls)
             cls._ref_unit = cls._make_ref_unit(ref_unit_symbol, ref_unit_name,
                                                ref_unit_def)
         else:
